@@ -35,6 +35,7 @@ int64_t nowNs();
 void yield(const char* label = "yield");                       // visible step, always enabled
 void pointIf(const std::function<bool()>& enabled, const char* label);  // blocks (schedules others) until enabled() holds
 int self();                                                    // scheduler thread id, -1 if unscheduled
+bool othersBlocked();                                          // no other thread is enabled right now (for use inside pointIf predicates)
 
 // called (in the failing process) when no thread is enabled and no timeout is pending / step horizon exceeded;
 // default prints a description and _exit()s with 100 + verdict
